@@ -206,7 +206,8 @@ bool ends_with(const std::string &s, const char *suf)
 //   parse_logic_op_nonboolean: the actions of `|`, `&`, `^` (xor, convert_xor off) and `~` in parser.yy
 //       rcp_static_cast their operands to Boolean unchecked  -> inputs containing such an operator.
 //   floor_nonfinite_double: floor(1e999): EvaluateRealDouble/ComplexDouble::floor|ceiling give a non-finite double to
-//       mpz_set_d (SIGFPE)                                    -> inputs containing an identifier ending in floor / ceil / ceiling.
+//       mpz_set_d (SIGFPE); primepi / primorial call floor      -> inputs containing an identifier ending in floor / ceil /
+//       ceiling / primepi / primorial.
 //   sbml_logic_nonboolean: the same in sbml_parser.yy (`&&`, `||`, `!`) and in SbmlParser::functionify
 //       (not / and / or / xor / piecewise)                   -> inputs containing such an operator or name.
 bool excluded_known(int kind, const std::string &s)
@@ -247,7 +248,8 @@ bool excluded_known(int kind, const std::string &s)
         token_count(t, &words);
         for (auto &w : words) {
             std::string l = lower(w);
-            if (ends_with(l, "floor") || ends_with(l, "ceiling") || ends_with(l, "ceil")) {
+            if (ends_with(l, "floor") || ends_with(l, "ceiling") || ends_with(l, "ceil") || ends_with(l, "primepi")
+                || ends_with(l, "primorial")) {
                 st.exclude("floor_nonfinite_double");
                 return true;
             }
